@@ -19,8 +19,10 @@ pub enum Chunking {
     PerChar,
     /// every char through `write_char` (newlines included)
     WriteChar,
+    /// two chunks: the first k chars, then the rest (a later chunk with a newline inside it)
+    Split(u8),
 }
-pub const CHUNKINGS: [Chunking; 4] = [Chunking::Whole, Chunking::PerLine, Chunking::PerChar, Chunking::WriteChar];
+pub const CHUNKINGS: [Chunking; 6] = [Chunking::Whole, Chunking::PerLine, Chunking::PerChar, Chunking::WriteChar, Chunking::Split(1), Chunking::Split(2)];
 
 #[derive(Clone)]
 pub struct Txt {
@@ -54,6 +56,14 @@ impl Txt {
                 use std::fmt::Write as _;
                 for c in s.chars() {
                     f.write_char(c)?;
+                }
+                Ok(())
+            }
+            Chunking::Split(k) => {
+                let at = s.char_indices().nth(k as usize).map(|(i, _)| i).unwrap_or(s.len());
+                f.write_str(&s[..at])?;
+                if at < s.len() {
+                    f.write_str(&s[at..])?;
                 }
                 Ok(())
             }
